@@ -21,13 +21,14 @@ correspondence alone.  Only the *holes* are translated:
   Tree        root target / depth; children_left/right[father] = <expr of n_nodes>; the two appended depths
               (<expr of depths[father]>); the order of the appended targets; the routing comparison; which
               child receives the rows satisfying it.
+  Kauri.predict  whether the query rows are converted to float64 (check_array(X, dtype=np.float64)) before routing.
 
 Natural-number expressions are put in a canonical form (linear polynomial, variables sorted, `a > b` as `b < a`,
 `not (a >= b)` as `a < b`, arguments of min/max/== sorted) so that harmless re-spellings give the same text.
 Literal (no hole, must match exactly): the find_best_split call, `last_gain > 0` (guard and `if`), np.where /
 setxor1d index computation, the shapes of Z and Y, `_add_child(leaf2node[best_split.leaf], best_split)`,
 `get_depth(leaf2node[best_split.leaf])`, `leaves_to_explore.remove(best_split.leaf)`,
-labels_ = (Y @ Z).argmax(0), leaves_ = Z.argmax(0), Kauri.predict, Kauri.score, the leaf test and the recursion
+labels_ = (Y @ Z).argmax(0), leaves_ = Z.argmax(0), the rest of Kauri.predict, Kauri.score, dtype=np.float64 in fit's validate_data, the leaf test and the recursion
 of Tree.predict.
 """
 import ast
@@ -544,7 +545,14 @@ def translate_fit(cls, D, L):
     b = clean(fn.body)
     expect_len(b, 3, "Kauri.predict", fn)
     lit(b[0], "check_is_fitted(self)")
-    lit(b[1], "X = check_array(X)")
+    # hole: are the query rows converted to float64 (the number system fit chose the thresholds in) before routing?
+    v = assign_to(b[1], "X")
+    if ast.unparse(v) == "check_array(X, dtype=np.float64)":
+        D["predict_float64"] = "true"
+    elif ast.unparse(v) == "check_array(X)":
+        D["predict_float64"] = "false"
+    else:
+        fail("Kauri.predict: input validation is neither check_array(X) nor check_array(X, dtype=np.float64)", b[1])
     lit(b[2], "return self.tree_.predict(X)")
     L["Kauri.predict"] = (fn.lineno, fn.end_lineno)
     fn = method(cls, "score")
@@ -612,7 +620,8 @@ Record FitRules := {{
   r_child_depth_l : nat -> nat; r_child_depth_r : nat -> nat;   (* depths[father] *)
   r_child_target_l : sidesel; r_child_target_r : sidesel;
   r_route_left : Z -> Z -> bool;                            (* X[:, feature], threshold *)
-  r_route_true : sidesel; r_route_false : sidesel           (* child receiving the rows that satisfy / fail the test *)
+  r_route_true : sidesel; r_route_false : sidesel;          (* child receiving the rows that satisfy / fail the test *)
+  r_predict_float64 : bool                                  (* Kauri.predict converts the query rows to float64 (fit's number system) *)
 }}.
 Definition kauri_fit_rules : FitRules := {{|
   (* validate_data(..., ensure_min_samples=<e>) *)
@@ -644,7 +653,9 @@ Definition kauri_fit_rules : FitRules := {{|
   r_child_depth_l := fun father_depth : nat => {child_depth_l}; r_child_depth_r := fun father_depth : nat => {child_depth_r};
   r_child_target_l := {child_target_l}; r_child_target_r := {child_target_r};
   r_route_left := fun x th : Z => {route_left};
-  r_route_true := {route_true}; r_route_false := {route_false} |}}.
+  r_route_true := {route_true}; r_route_false := {route_false};
+  (* Kauri.predict: X = check_array(X[, dtype=np.float64]) *)
+  r_predict_float64 := {predict_float64} |}}.
 (* EXTRACT: kauri_fit_rules *)
 """
 
